@@ -706,7 +706,7 @@ def mutate(fen, rng):
         return " ".join(fields), "placement"
     if kind == 5:
         rows = fields[0].split("/")
-        r = rng.below(8)
+        r = rng.below(len(rows))          # (a second edit may meet a text that has lost a rank already)
         rows[r] = rng.choice(["7", "9", "54", "44", "8p", "p8", "ppppppppp", "", "71", "17", "0", "08", "4k4",
                               "\uff18", "\u3038", "\u0f33p4", "\uff17p", "p\u0668", "\u00b2pppppp", "3\ua835"])
         fields[0] = "/".join(rows)
